@@ -200,13 +200,13 @@ TreeSet_isdisjoint(BTree* self, PyObject* other)
             }
         }
         contained = BTree_contains(self, v);
+        Py_DECREF(v);
         if (contained == -1) {
             goto err;
         }
         if (contained == 1) {
             result = Py_False;
         }
-        Py_DECREF(v);
     }
 
     if (result == NULL) {
